@@ -247,3 +247,89 @@ def r_quadrant_fn(rule, root=None):
             rule.ok("quarter period %d -> Q%d" % (kq, kq))
     if n < 4:
         rule.skip("Interval::quadrant arms", "only %d literal arms recognised" % n, count=True)
+
+
+# ---------------------------------------------------------------------------------------------------------------
+# Interval::atan2: corner selection by sign class
+
+
+def _sign_class(conds, v):
+    """'up' (v.lower >= 0), 'down' (v.upper <= 0), 'straddle' (both refused) or None (not tested) from the
+    conditions enclosing a statement"""
+    up = down = None
+    for c in conds:
+        t = c.replace(" ", "")
+        neg = False
+        while t.startswith("!"):
+            neg = not neg
+            t = t[1:]
+        t = t.strip("()")
+        if t in ("%s.lower>=0.0" % v, "%s.lower()>=0.0" % v, "0.0<=%s.lower" % v):
+            up = not neg
+        elif t in ("%s.upper<=0.0" % v, "%s.upper()<=0.0" % v, "0.0>=%s.upper" % v):
+            down = not neg
+    if up:
+        return "up"
+    if down:
+        return "down"
+    if up is False and down is False:
+        return "straddle"
+    return None
+
+
+def r_atan2_corners(rule, root=None):
+    """Away from the branch cut atan2(y, x) rises with y where x > 0 and falls where x < 0; it falls with x where
+    y > 0 and rises where y < 0.  So over a box in one sign class the extreme angles sit at known corners, and
+    the two corners each case of Interval::atan2 evaluates must be those."""
+    fn = A.find_fn(IV, "atan2", self_ty="Interval", root=root)
+    v = A.value_view(fn)
+    ups = [c for c in A.find(v["body"], "Call") if A.path_segs(c["func"]) == ["update"] and len(c["args"]) == 2]
+    if len(ups) < 8:
+        rule.lost("the corner updates of Interval::atan2 (found %d)" % len(ups))
+        return
+    # which parameter is y (the receiver) and which is x
+    leaves = {}
+    for c in ups:
+        conds = A.enclosing_conds(v["body"], c) or []
+        yc, xc = _sign_class(conds, "y"), _sign_class(conds, "x")
+        if yc is None:
+            yc = _sign_class(conds, "self")
+        leaves.setdefault((yc, xc), []).append(c)
+    for (yc, xc), cs in sorted(leaves.items(), key=lambda kv: str(kv[0])):
+        if yc is None:
+            rule.skip("Interval::atan2 corner case", "a case is not selected by the sign class of y", count=True)
+            continue
+        if yc == "straddle" and xc is None:
+            xc = "up"  # the branch-cut guard has taken every box with x.lower < 0 (C03.R5 checks that guard)
+        if xc is None:
+            rule.skip("Interval::atan2 y %s" % yc, "the case is not selected by the sign class of x", count=True)
+            continue
+        if yc == "straddle" and xc != "up":
+            rule.skip("Interval::atan2 y straddle, x %s" % xc, "behind the branch-cut guard this case is unreachable", count=True)
+            continue
+        # x coordinate of the maximum / minimum
+        xm = "x.lower" if yc in ("up", "straddle") else "x.upper"
+        xn = "x.upper" if yc == "up" else "x.lower"
+        if yc == "straddle":
+            xn = "x.lower"
+
+        def sgn(xb):
+            if xc == "up":
+                return 1
+            if xc == "down":
+                return -1
+            return -1 if xb == "x.lower" else 1
+
+        ym = "y.upper" if sgn(xm) > 0 else "y.lower"
+        yn = "y.lower" if sgn(xn) > 0 else "y.upper"
+        got = {tuple(A.unparse(a).replace(" ", "").replace("()", "").replace("self.", "y.") for a in c["args"]) for c in cs}
+        key = "atan2|y %s|x %s" % (yc, xc)
+        miss = [("largest", (ym, xm)), ("smallest", (yn, xn))]
+        miss = [(w, p) for w, p in miss if p not in got]
+        if miss:
+            w, p = miss[0]
+            rule.bad(key, "Interval::atan2, y %s x %s: the %s angle of the box is at (%s, %s); the case evaluates %s" % (
+                {"up": ">= 0", "down": "<= 0", "straddle": "straddling 0"}[yc], {"up": ">= 0", "down": "<= 0", "straddle": "straddling 0"}[xc], w, p[0], p[1],
+                sorted("(%s, %s)" % g for g in got)), A.where(IV, cs[0]))
+        else:
+            rule.ok("Interval::atan2 y %s x %s evaluates the corners of its extreme angles" % (yc, xc), file=IV, line=cs[0]["ln"])
